@@ -202,6 +202,9 @@ func runCrash(p *Plan, tape *simrt.Tape, opt RunOpt) *RunOut {
 		img := fs.Snapshot()
 		rc := &recoverer{p: p, out: out, opt: opt}
 		v := rc.recover(img, hit.adm, p.x("nested_at", -1), fmt.Sprintf("crash before %s %s (mutating op %d, during plan op %d, torn=%d)", hit.rec.Kind, hit.rec.Path, hit.mut, hit.opIdx, p.x("torn", 0)))
+		if v != nil && p.Prop == "C07" && !strings.Contains(v.Class, "fsck") {
+			v = nil
+		}
 		out.Viol = v
 		return out
 	}
@@ -270,6 +273,10 @@ func runCrash(p *Plan, tape *simrt.Tape, opt RunOpt) *RunOut {
 		}
 		where := fmt.Sprintf("crash before %s %s (mutating op %d, during plan op %d, torn=%d)", j.c.rec.Kind, j.c.rec.Path, j.c.mut, j.c.opIdx, j.torn)
 		v := rc.recoverSearch(img, j.c.adm, nested, r, where)
+		if v != nil && p.Prop == "C07" && !strings.Contains(v.Class, "fsck") {
+			out.Probes["other-oracle-failed"]++
+			v = nil
+		}
 		if v != nil {
 			out.Viol = v
 			pp := p.Clone()
@@ -393,6 +400,8 @@ func (rc *recoverer) recover(img *simos.Image, adm *Adm, nestedAt int, where str
 	rc.out.SimTime += res.SimTime
 	rc.out.addFS(fs)
 	rc.out.Probes["recoveries"]++
+	d.mergeProbes()
+	rc.out.Probes["fsck"] += d.Probes["fsck"]
 	if rc.opt.Trace {
 		rc.out.Trace = append(rc.out.Trace, "--- recovery: "+where+" ---")
 		rc.out.Trace = append(rc.out.Trace, w.FormatTrace(200)...)
